@@ -3,9 +3,12 @@ package seats
 import (
 	"encoding/json"
 	"fmt"
+	"os"
+	osexec "os/exec"
 	"runtime"
 	"sort"
 	"strings"
+	"sync"
 
 	sm "github.com/weedbox/pokerface/seat_manager"
 	"github.com/weedbox/pokerface/verifshim/vrt"
@@ -177,12 +180,97 @@ func (h *Harness) runOnce(ch *vrt.Chooser) (outcome, sig, msg string) {
 	return outcome, "", ""
 }
 
-// RunConcurrent explores every schedule of every harness within the preemption bound.
+// ChildResult is what a per-harness child process reports on stdout.
+type ChildResult struct {
+	Harness   string             `json:"harness"`
+	Schedules int                `json:"schedules"`
+	Outcomes  []string           `json:"outcomes"`
+	Broken    string             `json:"broken,omitempty"`
+	Violation *explore.Violation `json:"violation,omitempty"`
+}
+
+// RunHarnessChild explores one harness in this process (the cooperative scheduler is
+// process-global, so harnesses are spread over child processes) and prints a ChildResult.
+func RunHarnessChild(name string, bound int) {
+	rep := explore.NewReport("C18", "child")
+	runHarnesses(rep, "thorough", name, bound)
+	res := ChildResult{Harness: name}
+	if s, ok := rep.Cov["schedules"].(int64); ok {
+		res.Schedules = int(s)
+	}
+	for _, smp := range rep.Samples {
+		if m, ok := smp.(map[string]any); ok {
+			if outs, ok := m["distinct_outcomes"].([]string); ok {
+				res.Outcomes = outs
+			}
+		}
+	}
+	res.Broken = rep.Broken
+	res.Violation = rep.FirstViolation()
+	b, _ := json.Marshal(res)
+	fmt.Println(string(b))
+}
+
+// RunConcurrent explores every schedule of every harness within the preemption bound. In the
+// thorough tier every harness runs in its own child process, all in parallel.
 func RunConcurrent(rep *explore.Report, tier string, only string) {
 	bound := 2
 	if tier == "thorough" {
 		bound = 3
 	}
+	exe, err := os.Executable()
+	if tier != "thorough" || err != nil || os.Getenv("VERIF_NO_CHILDREN") != "" {
+		runHarnesses(rep, tier, only, bound)
+		return
+	}
+	rep.Set("preemption_bound", int64(bound))
+	hs := Harnesses(tier)
+	results := make([]ChildResult, len(hs))
+	errs := make([]string, len(hs))
+	var wg sync.WaitGroup
+	sem := make(chan struct{}, runtime.NumCPU())
+	for i, h := range hs {
+		wg.Add(1)
+		go func(i int, h Harness) {
+			defer wg.Done()
+			sem <- struct{}{}
+			defer func() { <-sem }()
+			out, err := osexec.Command(exe, "conc-child", h.Name, fmt.Sprint(bound)).Output()
+			if err != nil {
+				errs[i] = fmt.Sprintf("child for harness %s failed: %v", h.Name, err)
+				return
+			}
+			lines := strings.Split(strings.TrimSpace(string(out)), "\n")
+			if err := json.Unmarshal([]byte(lines[len(lines)-1]), &results[i]); err != nil {
+				errs[i] = fmt.Sprintf("child for harness %s: bad output: %v", h.Name, err)
+			}
+		}(i, h)
+	}
+	wg.Wait()
+	for i, h := range hs {
+		if errs[i] != "" {
+			rep.Broken = errs[i]
+			continue
+		}
+		r := results[i]
+		if r.Broken != "" {
+			rep.Broken = r.Broken
+		}
+		if r.Violation != nil {
+			v := r.Violation
+			v.Confirm = func() (bool, string) { return ReplayConcurrent(v) }
+			rep.Violation(v)
+		}
+		rep.Add("schedules", int64(r.Schedules))
+		rep.Add("transitions", int64(r.Schedules))
+		rep.Add("states", int64(len(r.Outcomes)))
+		rep.Add("traces_validated_against_impl", int64(r.Schedules))
+		rep.Add("concurrent_distinct_outcomes", int64(len(r.Outcomes)))
+		rep.Sample(map[string]any{"harness": h.Name, "threads": h.Threads, "prefix": h.Prefix, "schedules_within_bound": r.Schedules, "distinct_outcomes": r.Outcomes})
+	}
+}
+
+func runHarnesses(rep *explore.Report, tier string, only string, bound int) {
 	runtime.LockOSThread()
 	defer runtime.UnlockOSThread()
 	rep.Set("preemption_bound", int64(bound))
